@@ -238,6 +238,24 @@ def monitors(M, T, r):
                 e = f(ens, axis=1)
                 if not (np.isclose(c1, np.corrcoef(obs, e)[0, 1], rtol=1e-9) and np.isclose(c2, spearmanr(obs, e).correlation, rtol=1e-9)):
                     bad.append(dict(what='corr', stat=stat, obs=obs.tolist(), ens=ens.tolist()))
+            # Spearman with ties (intermittent / rounded series): textbook definition = Pearson correlation of the mid-ranks (independent oracle)
+            ot = np.array([rng.choice([0.0, 0.0, 1.0, 2.5, 2.5, 4.0]) for _ in range(L)]); st_ = np.array([rng.choice([0.0, 1.0, 1.0, 3.0, 5.0]) for _ in range(L)])
+            if np.ptp(ot) > 0 and np.ptp(st_) > 0:
+                n += 1
+                def mid(v):
+                    v = list(v); order = sorted(range(len(v)), key=lambda i: v[i]); rk = [0.0] * len(v); i = 0
+                    while i < len(v):
+                        j = i
+                        while j + 1 < len(v) and v[order[j + 1]] == v[order[i]]:
+                            j += 1
+                        for t in range(i, j + 1):
+                            rk[order[t]] = 1 + (i + j) / 2
+                        i = j + 1
+                    return np.array(rk)
+                exp_sp = np.corrcoef(mid(ot), mid(st_))[0, 1]
+                got_sp = M.corr(ot, st_[:, None], type='Spearman')
+                if not np.isclose(got_sp, exp_sp, rtol=1e-9, atol=1e-12):
+                    bad.append(dict(what='corr', stat='Spearman with ties: %r, mid-rank definition %r' % (float(got_sp), float(exp_sp)), obs=ot.tolist(), ens=st_.tolist()))
     r.bounded_clause('C04 confusion matrix (every pair counted once, requested size, row/column order); scores with transforms = textbook formula of the transformed series; excludenull; Pearson / Spearman with mean / median',
                      'confusion: all pairs of series up to length %d over 2 categories (shorter for 3, 4, 6) + 150 random each; scores: %d random series x 5 transforms' % (lens[-1], 150 if r.tier == 'quick' else 1500), n, n, False, failures=len(bad))
     for b in bad[:3]:
@@ -273,6 +291,9 @@ def run(tier):
         pproof.discharge(r, obls, replay=replay, file='src/hydrodiy/stat/metrics.py', fn_of=lambda ob: ob.id.split('/')[1])
         r.functions = [dict(file='metrics.py', fn=f, trusted=[], nonterminating=[], cutloops=0, unrolled=0, terminating=0) for f in ('binary', 'bias', 'nse', 'kge', 'corr')]
         r.extra['paths_explored'] = npaths
+    except (engp.Unsupported, engp.PathLimit) as e:
+        # the code under analysis uses a construct the symbolic executor does not support (e.g. after a change of the code): undecided, not a crash
+        r.undecided.append('Engine P cannot execute the current code symbolically: %s' % (str(e)[:300],))
     except Exception:
         r.broken.append('C04 driver crashed: ' + traceback.format_exc()[-2500:])
     r.assumptions += ['binary: the four counts are symbolic reals >= 1 (a superset of the positive integer tables of the property)',
